@@ -32,6 +32,12 @@ def len(l: List[i64], acc: i64): i64 { l.case[i64] { Nil => acc, Cons(x, xs) => 
 def loop(n: i64, acc: i64): i64 { if n <= 0 { acc } else { let l: List[i64] = build(9, Nil); let p: Pair[List[i64], List[i64]] = Tup(l, l); let r: i64 = p.case[List[i64], List[i64]] { Tup(a, b) => len(a, 0) + len(b, 0) }; loop(n - 1, acc + r) } }
 def main(n: i64): i64 { println_i64(loop(n, 0)); 0 }
 """,
+    "zerohead": """data List[A] { Nil, Cons(x: A, xs: List[A]) }
+def build(n: i64, acc: List[i64]): List[i64] { if n == 0 { acc } else { build(n - 1, Cons(n, acc)) } }
+def first(l: List[i64], a: i64, b: i64, c: i64, d: i64, e: i64, f: i64, g: i64, h: i64, i: i64, j: i64, k: i64, m: i64, z: i64): i64 { l.case[i64] { Nil => z, Cons(x, xs) => ((((((((((((x + a) + b) + c) + d) + e) + f) + g) + h) + i) + j) + k) + m) + z } }
+def loop(n: i64, total: i64): i64 { if n <= 0 { total } else { loop(n - 1, total + first(Cons(0, build(10, Nil)), 1, 2, 3, 4, 5, 6, 7, 8, 9, 10, 11, 12, 13)) } }
+def main(n: i64): i64 { println_i64(loop(n, 0)); 0 }
+""",
     "peek": """data List[A] { Nil, Cons(x: A, xs: List[A]) }
 def build(n: i64, acc: List[i64]): List[i64] { if n <= 0 { acc } else { build(n - 1, Cons(n, acc)) } }
 def peek(n: i64, acc: i64, l: List[i64]): i64 { l.case[i64] { Nil => acc, Cons(x, xs) => loop(n, acc) } }
